@@ -133,7 +133,16 @@ func newRun(b vh.Behaviour, res *vh.Result, env *valkit.Env) *run {
 func (r *run) validateNew() {
 	for ; r.seen < len(r.w.Pool); r.seen++ {
 		e := r.w.Pool[r.seen]
-		slot, off := slotAndOffset(r.height, timeOf(r.role, r.gr, r.pos))
+		// the clock: the global round of the schedule, and never behind the round the sender itself is in
+		// (behaviours without EndRound steps are timed by the senders' rounds)
+		gr := r.gr
+		if inst := r.w.Instance(e.From); inst != nil && int(inst.State.Round) > gr && !inst.State.Decided {
+			gr = int(inst.State.Round)
+		}
+		if mr := int(e.Msg.Message.Round); mr > gr && len(e.Msg.Signers) == 1 {
+			gr = mr
+		}
+		slot, off := slotAndOffset(r.height, timeOf(r.role, gr, r.pos))
 		for _, p := range r.w.Honest {
 			if p == e.From {
 				continue
